@@ -8,41 +8,46 @@ import (
 	"github.com/mattn/anko/vm"
 )
 
-// A Go function parameter conversion failure must end the evaluation of the
-// operands after it: probe "b" must not run when operand "a" cannot be
-// converted to the first parameter type.
-func TestC07DemoGoParamConversionStopsEvaluation(t *testing.T) {
-	var log []string
-	e := env.NewEnv()
-	_ = e.Define("p", func(tag string, v interface{}) interface{} {
-		log = append(log, tag)
-		return v
-	})
-	called := false
-	_ = e.Define("host3", func(a string, b int64, c int64) int64 {
-		called = true
-		return b + c
-	})
-
-	_, err := vm.Execute(e, nil, `host3(p("a", [1, 2]), p("b", 2), p("c", 3))`)
-	if err == nil {
-		t.Fatalf("expected a conversion error, got none (called=%v)", called)
+// && and || must evaluate only the operands their result depends on, also
+// when the deciding left operand is a truthy / falsy value that is not a bool.
+func TestC07DemoShortCircuitNonBool(t *testing.T) {
+	tests := []struct {
+		script string
+		result interface{}
+		log    []string
+	}{
+		// plain bools (unchanged behaviour)
+		{`p("l", true) || p("r", true)`, true, []string{"l"}},
+		{`p("l", false) && p("r", true)`, false, []string{"l"}},
+		{`p("l", false) || p("r", true)`, true, []string{"l", "r"}},
+		// non-bool deciding left operands
+		{`p("l", 1) || p("r", false)`, true, []string{"l"}},
+		{`p("l", "x") || p("r", false)`, true, []string{"l"}},
+		{`p("l", [1]) || p("r", false)`, true, []string{"l"}},
+		{`p("l", 0) && p("r", true)`, false, []string{"l"}},
+		{`p("l", nil) && p("r", true)`, false, []string{"l"}},
+		{`p("l", "") && p("r", true)`, false, []string{"l"}},
+		// the usual nil guard idiom
+		{`m = nil; m && p("r", m.x)`, false, nil},
+		{`p("a", 0) && p("b", 1) || p("c", 2) || p("d", 3)`, true, []string{"a", "c"}},
 	}
-	if called {
-		t.Fatalf("host3 must not be called")
-	}
-	want := []string{"a"}
-	if !reflect.DeepEqual(log, want) {
-		t.Fatalf("probe log = %v, want %v (err: %v)", log, want, err)
-	}
-
-	// sanity: the well typed call evaluates a, b, c once each in order
-	log = nil
-	v, err := vm.Execute(e, nil, `host3(p("a", "s"), p("b", 2), p("c", 3))`)
-	if err != nil || v != int64(5) {
-		t.Fatalf("unexpected result %v, %v", v, err)
-	}
-	if want := []string{"a", "b", "c"}; !reflect.DeepEqual(log, want) {
-		t.Fatalf("probe log = %v, want %v", log, want)
+	for _, tt := range tests {
+		var log []string
+		e := env.NewEnv()
+		_ = e.Define("p", func(tag string, v interface{}) interface{} {
+			log = append(log, tag)
+			return v
+		})
+		v, err := vm.Execute(e, nil, tt.script)
+		if err != nil {
+			t.Errorf("%s: unexpected error %v", tt.script, err)
+			continue
+		}
+		if v != tt.result {
+			t.Errorf("%s: result %v, want %v", tt.script, v, tt.result)
+		}
+		if !reflect.DeepEqual(log, tt.log) {
+			t.Errorf("%s: probe log = %v, want %v", tt.script, log, tt.log)
+		}
 	}
 }
